@@ -510,7 +510,8 @@ package argmapper
 //@ ghostvar failed any
 //@ ghostvar planning bool
 //@ ghostfield Func.execs int
-//@ uf zeroFn(v reflect.Value) bool
+// a planning stand-in: a function value made (reflect.MakeFunc) from the zero-producing literal of zeroFunc
+//@ ghost zeroFn(v reflect.Value) bool = fncode(madeFrom(v)) == litcode("argmapper.(*Func).zeroFunc$1")
 
 //@ ghost cachedOnce(f *Func) bool = f.once && f.onceResult != nil
 // every memoized result is the result of an execution (never a resolution error)
@@ -1001,3 +1002,19 @@ package argmapper
 //@   modifies captured(next, "graph.(*Graph).dfs$1", "visited"), cbset(self)
 //@   dispatch next "graph.(*Graph).dfs$1"
 //@   before "visited[graph.VertexID(v)] = struct{}{}" set reported = add(reported, captured(next, "graph.(*Graph).dfs$1", "w"))
+
+// ---------------------------------------------------------------- filter.go, redefine.go (C08 C09)
+// The verdict of a filter on a value is a function of the filter and the value's label.
+//@ uf filt(f FilterFunc, n string, t reflect.Type, s string) bool
+//@ func FilterType$1
+//@   pure
+//@   ensures [type-or-implementation] result == (v.Type == t || (kindof(t) == 20 && implements(v.Type, t)))
+//@   requires t != nil && v.Type != nil
+
+// zeroFunc: the stand-in Redefine plans with; its body is library code that builds zero outputs
+//@ func (*Func).zeroFunc
+//@   requires f != nil && valid(f.fn) && kindof(rtypeof(f.fn)) == 19 && f.output != nil
+//@   ensures  [stand-in] zeroFn(result) && valid(result) && rtypeof(result) == rtypeof(f.fn)
+//@   ensures  [no-user-code] nexec == old(nexec) && failed == old(failed)
+//@   assigns  rvstore, rvfresh
+//@   modifies nothing
